@@ -59,6 +59,9 @@ def gen_case(rng, tag, forced=None):
     return dict(line=line, scen=scen, dt=dt, S=S, T=T, nc=nc, niter=niter, string=string_stats, tag=tag)
 
 
+FACE_OWNERS = {}      # (id(facefiles list), file number) -> {owner id text: number of faces} read from the face_cell_id array
+
+
 def parse_out(out):
     sec = [s.strip() for s in out.split(" # ")]
     its = []
@@ -83,7 +86,16 @@ def parse_out(out):
     for item in [x.strip() for x in body.split("|") if x.strip()]:
         n, rest = item.split(":", 1); r = rest.split()
         cellfiles.append((int(n), r))
-    facefiles = [(int(x.split(":")[0]), int(x.split(":")[1])) for x in sec[3].split()[1:]]
+    facefiles = []; FACE_OWNERS.clear() if False else None
+    for x in sec[3].split()[1:]:
+        q = x.split(":")
+        facefiles.append((int(q[0]), int(q[1])))
+        own = {}
+        if len(q) > 2 and q[2] not in ("", "-"):
+            for kv in q[2].split(","):
+                k_, n_ = kv.rsplit("x", 1); own[k_] = int(n_)
+        FACE_OWNERS[(id(facefiles), int(q[0]))] = own if (len(q) > 2 and q[2] != "-") else None
+    FACE_OWNERS[id(facefiles)] = facefiles
     stats = sec[4][len("STATS"):].strip()
     rows = [r for r in stats.split(";") if r != ""]
     return its, end, cellfiles, facefiles, rows
@@ -140,6 +152,18 @@ def oracle(c, its, end, cellfiles, facefiles, rows, colnames):
     for j, it in enumerate(its):
         for k in range(counters[j] + 1, counters[j + 1] + 1):
             saved_at[k] = j
+    for n, _ok in facefiles:
+        own = FACE_OWNERS.get((id(facefiles), n))
+        j = saved_at.get(n)
+        if own is None or j is None:
+            continue
+        alive = [a for a, _ in its[j]["before"]]
+        try:
+            named = sorted(int(float(k_)) for k_ in own)
+        except ValueError:
+            return "face_file_wellformed (result_%d.vtk: face_cell_id values %s)" % (n, list(own)[:4])
+        if named != sorted(alive):
+            return "file_describes_cells_alive_when_written (face_data/result_%d.vtk attributes its faces to the cells %s, alive at iteration %d were %s)" % (n, named[:12], j, sorted(alive)[:12])
     for n, r in cellfiles:
         if r and r[0] in ("UNREADABLE", "BADNAME"):
             return "cell_file_parseable (result_%d.vtk: %s)" % (n, r[0])
@@ -215,10 +239,17 @@ def run(ck):
         c = gen_case(random.Random(1000 + j), "c19_k%d" % j, forced="S=dt")
         cases.append(c)
     cases += [gen_case(rng, "c19_%d" % i) for i in range(ncase)]
+    # a third of the runs start with persistent ids beyond 2^15 / 2^16 (as late in a long simulation with many divisions)
+    for i, c in enumerate(cases):
+        if i % 3 == 1:
+            c["id_offset"] = rng.choice([32766, 40000, 65534, 70000])
     from concurrent.futures import ThreadPoolExecutor
     def one(c):
         try:
-            p = vlib.run([impl], input=c["line"] + "\n", timeout=RUN_TIMEOUT, env={"OMP_NUM_THREADS": "1"})
+            env = {"OMP_NUM_THREADS": "1"}
+            if c.get("id_offset"):
+                env["VERIF_ID_OFFSET"] = str(c["id_offset"])
+            p = vlib.run([impl], input=c["line"] + "\n", timeout=RUN_TIMEOUT, env=env)
             return p.returncode, p.stdout, p.stderr[-800:]
         except Exception as e:
             return -999, "", str(e)
